@@ -23,7 +23,9 @@ def frame_view(obj):
 # --- valid buffers (reference-encoded)
 BUF_QD = refcodec.enc_method_frame(
     M['Queue.Declare'], (0, 'q', False, True, False, False, False,
-                         {'a': [40000, {'b': 70000}], 'n': -1}), 3)[0]
+                         {'a': [40000, {'b': 70000, 'y': bytearray(b'in')},
+                                bytearray(b'el')], 'n': -1,
+                          'x': bytearray(b'\x01\xce')}), 3)[0]
 BUF_QD2 = refcodec.enc_method_frame(
     M['Queue.Declare'], (0, 'other', True, False, False, True, False,
                          {'z': ['x', [1.5]], 'k': None}), 4)[0]
@@ -32,7 +34,10 @@ BUF_QD_EMPTY = refcodec.enc_method_frame(
 BUF_PUB = refcodec.enc_method_frame(
     M['Basic.Publish'], (0, 'ex', 'rk', True, False), 2)[0]
 BUF_HDR = refcodec.enc_header_frame(
-    10, {'content_type': 'text/plain', 'headers': {'h': [1, 2], 'x': 'y'},
+    10, {'content_type': 'text/plain',
+         'headers': {'h': [1, 2, bytearray(b'el')], 'x': 'y',
+                     'blob': bytearray(b'\x00\xff'),
+                     'n': {'deep': bytearray(b'd')}},
          'delivery_mode': 2, 'timestamp': A.dt(1600000000)}, 5)[0]
 BUF_HDR_EMPTY = refcodec.enc_header_frame(0, {}, 5)[0]
 BUF_BODY = refcodec.enc_body_frame(b'payload\xce', 5)[0]
@@ -162,6 +167,38 @@ def ev_marshal_invalid(p, keep):
     return out
 
 
+def mutate_all(obj, mark='m', depth=0):
+    """Change, in place, every mutable member reachable from a returned
+    object: dicts get a key, lists an element, byte arrays a tail (after
+    the children were visited, so these additions are not revisited)."""
+    if depth > 8 or obj is None:
+        return
+    if isinstance(obj, dict):
+        for v in list(obj.values()):
+            mutate_all(v, mark, depth + 1)
+        obj['mutated-' + mark] = mark
+    elif isinstance(obj, list):
+        for v in list(obj):
+            mutate_all(v, mark, depth + 1)
+        obj.append('mutated-' + mark)
+    elif isinstance(obj, bytearray):
+        obj.extend(b'<' + mark.encode() + b'>')
+        obj[0:1] = b'#'
+    else:
+        props = getattr(obj, 'properties', None)
+        objs = [obj] if props is None or isinstance(props, (str, int)) \
+            else [obj, props]
+        for o in objs:
+            try:
+                names = list(type(o).attributes())
+            except Exception:  # noqa
+                continue
+            for n in names:
+                v = getattr(o, n, None)
+                if isinstance(v, (dict, list, bytearray)):
+                    mutate_all(v, mark, depth + 1)
+
+
 # --- composite events: call, then mutate what was returned
 def ev_mutate_default_arguments(p, keep):
     a = p.commands.Queue.Declare()
@@ -179,10 +216,12 @@ def ev_mutate_decoded_arguments(p, keep):
     a.arguments['injected'] = 1
     a.arguments['a'].append('appended')
     a.queue = 'changed'
+    mutate_all(a)
     b, res = decode(p, BUF_QD)
     keep(a), keep(b)
     return [res, a.arguments is b.arguments,
-            a.arguments['a'] is b.arguments['a']]
+            a.arguments['a'] is b.arguments['a'],
+            a.arguments['x'] is b.arguments['x']]
 
 
 def ev_mutate_decoded_properties(p, keep):
@@ -193,6 +232,7 @@ def ev_mutate_decoded_properties(p, keep):
     a.properties.headers['h'].append(3)
     a.properties.content_type = 'mutated'
     a.properties.app_id = 'mutated'
+    mutate_all(a)
     b, res = decode(p, BUF_HDR)
     d, res_empty = decode(p, BUF_HDR_EMPTY)
     keep(a), keep(b), keep(d)
@@ -222,14 +262,23 @@ def ev_mutate_start_properties(p, keep):
 
 
 def ev_mutate_decoded_array(p, keep):
-    data = p.encode.field_array([1, [2, 3], {'k': [4]}])
+    data = p.encode.field_array([1, [2, 3, bytearray(b'e')],
+                                 {'k': [4], 'x': bytearray(b'v')},
+                                 bytearray(b'top')])
     _n, a = p.decode.field_array(data)
     a.append('x')
     a[1].append('y')
     a[2]['k'].append('z')
     a[2]['new'] = 1
+    mutate_all(a)
     _n, b = p.decode.field_array(data)
-    return [c(b), a is b, a[1] is b[1], a[2] is b[2]]
+    tdata = p.encode.field_table({'x': bytearray(b'v'),
+                                  'l': [bytearray(b'e'), {'d': bytearray()}]})
+    _n, ta = p.decode.field_table(tdata)
+    mutate_all(ta)
+    _n, tb = p.decode.field_table(tdata)
+    return [c(b), a is b, a[1] is b[1], a[2] is b[2], a[3] is b[3], c(tb),
+            ta['x'] is tb['x']]
 
 
 def ev_twice_identity(p, keep):
@@ -265,6 +314,8 @@ def ev_repeat_decode_mutate(p, keep):
         h.properties.content_type = 'mutated-%d' % k
         q.arguments['mut%d' % k] = k
         q.arguments['a'][1]['b'] = -k
+        mutate_all(h, str(k))
+        mutate_all(q, str(k))
         held.append(((h, q), (frame_view(h), frame_view(q))))
     return out
 
